@@ -12,20 +12,28 @@ LEAN_PROPS = ["FcpptProofs.Props.C02"]
 # the typed family is compiled as separate translation units (in parallel); vlib joins repo_srcs onto the /repo path, an
 # absolute path passes through unchanged
 _H = os.path.normpath(os.path.join(os.path.dirname(os.path.abspath(__file__)), "..", "harness"))
-HARNESS = {"src": "harness/c02.cpp",
+# -g1: line tables only (enough for the sanitizers' reports); the 17 template-heavy translation units need a third less
+# time and memory than with full debug information
+HARNESS = {"src": "harness/c02.cpp", "flags": ["-g1"],
            "repo_srcs": ["libs/core/src/insert_extract_locale.cpp", "libs/core/src/exception.cpp"] +
-                        [os.path.join(_H, f"c02_typed_{i}.cpp") for i in range(8)]}
-TIE = ("hand-written position-threading model (FcpptModel/Model/C02.lean) proved equal to the position-free PEG semantics; "
-       "differential correspondence against grammars built at run time from the real fcppt::parse templates")
+                        [os.path.join(_H, f"c02_typed_{i}.cpp") for i in range(16)]}
+TIE = ("hand-written position-threading model (FcpptModel/Model/C02.lean) proved equal to the position-free PEG semantics, plus a model "
+       "of the typed result plumbing (Model/C02/Typed.lean) proved type-preserving; differential correspondence against grammars built at "
+       "run time from the real fcppt::parse templates (universal value) AND against 314 statically typed instantiations (natural result "
+       "types: static type + flattened value compared)")
 RULE = ("enum: one generated well-formed grammar (<= 3 rules, depth <= 5, every combinator and skipper kind) x ALL inputs over a "
         "3-6 letter alphabet up to length 5-6 (quick) / 7-8 (thorough), char and wchar_t, entry points parse_string / "
-        "phrase_parse_string / grammar_parse_string; the digest covers success value, failure and fatal flag of every input. "
+        "phrase_parse_string / grammar_parse_string / phrase_parse_stream / grammar_parse_stream (stream offset after success and "
+        "failure included); the digest covers success value, failure and fatal flag of every input. tenum: the same for one statically "
+        "typed shape (static result type + flattened value). Systematic batches: ALL well-formed terms of depth <= 2 over "
+        "seq/alt/rep/opt/not and the nests of save/restore sites, under idempotent and non-idempotent skippers. "
         "An op is non-trivial if at least one input succeeds and one fails; distinct = distinct op lines; evaluations = inputs parsed.")
 ASSUMPTIONS = [
     "std::basic_istringstream get/tellg/seekg/clear behave as a random-access character array (C12 models the stream itself)",
     "convert / convert_if functions are pure; the theorems hold for arbitrary function tables",
     "istream >> unsigned short / short on a digit string: value if representable, failure otherwise (num_get, classic locale)",
-    "universal value type Val in the harness: the typed result plumbing (sequence_result / alternative_result flattening) is instantiated only at Val",
+    "istream >> double on digits '.' digits: the correctly rounded (nearest-even) binary64, failure on overflow (glibc strtod); decToDouble is validated by correspondence, not proved",
+    "typed layer: convert / convert_if with user functions have no modelled result type (typeOf = none); statically typed harness shapes are non-recursive (the theorem covers ref under WT)",
 ]
 TRUSTED = ["harness/c02.cpp, the op-line grammar decoder on both sides and the digest/line protocol (vh.hpp, Proto.lean)",
            "g++ 12 + ASan/UBSan as witness for memory safety of the instantiations",
@@ -204,7 +212,7 @@ class Gen:
 
 # ---------------------------------------------------------------------------------------------- typed family
 
-ARITY = {"eps": 0, "fail": 0, "any": 0, "lit": 0, "cset": 0, "compl": 0, "str": 0, "uint": 0, "int": 0, "float": 0,
+ARITY = {"copy": 1, "cref": 1, "box": 1, "same": 0, "spc": 0, "blk": 0, "dig": 0, "eps": 0, "fail": 0, "any": 0, "lit": 0, "cset": 0, "compl": 0, "str": 0, "uint": 0, "int": 0, "float": 0,
          "seq": 2, "alt": 2, "rep": 1, "plus": 1, "opt": 1, "not": 1, "fatal": 1, "lex": 1, "ign": 1, "named": 1,
          "sep": 2, "list": 4, "con": 1, "ast": 1, "cst": 1}
 
@@ -226,10 +234,33 @@ def parse_prefix(text):
     return r
 
 
-def shape_cpp(node):
-    """the C++ expression of a shape: the real combinators with their natural result types"""
+def shape_cpp(node, decls=None):
+    """the C++ expression of a shape: the real combinators with their natural result types.
+    decls collects `auto vN = <parser>;` statements: `copy.X` hands the enclosing combinator a copy of a named parser
+    object (lvalue operands themselves are not accepted by the library, notes/C02.md), `cref.X` an fcppt::reference to
+    it, `box.X` a base_unique_ptr (make_base), `same` the very same object as the preceding operand."""
     name, param, kids = node
-    k = [shape_cpp(x) for x in kids]
+    if decls is None:
+        decls = []
+    if name in ("copy", "cref"):
+        inner = shape_cpp(kids[0], decls)
+        v = f"v{len(decls)}"
+        decls.append(f"auto const {v} = {inner};")
+        return f"std::remove_cvref_t<decltype({v})>{{{v}}}" if name == "copy" else f"fcppt::make_cref({v})"
+    if name == "box":
+        return f"box<Ch>({shape_cpp(kids[0], decls)})"
+    k = []
+    for x in kids:
+        if x[0] == "same":
+            assert k and (k[-1].startswith("std::remove_cvref_t<decltype(v") or k[-1].startswith("fcppt::make_cref(v")), node
+            k.append(k[-1])
+        else:
+            k.append(shape_cpp(x, decls))
+    if name in ("spc", "blk"):
+        fn = "space" if name == "spc" else "blank"
+        return f"fp::basic_char_set<Ch>{{fp::{fn}_set<Ch>()}}"
+    if name == "dig":
+        return "fp::digits<Ch>()"
     if name == "eps":
         return "fp::epsilon{}"
     if name == "fail":
@@ -281,6 +312,8 @@ def shape_cpp(node):
     if name == "cst":
         if param[0] == "i":
             return f"fp::convert_const{{{k[0]}, short{{{int(param[1:])}}}}}"
+        if param[0] == "s":
+            return f'fp::convert_const{{{k[0]}, cstr<Ch>("{param[1:]}")}}'
         return f"fp::convert_const{{{k[0]}, chr<Ch>('{param[1]}')}}"
     raise AssertionError(name)
 
@@ -379,6 +412,21 @@ def typed_shapes():
     add("seq.con:21.cset:a.ast:31.seq.cset:b.cset:c"), add("ast:32.seq.con:21.cset:a.cset:b")
     add("alt.con:21.cset:a.con:22.cset:b"), add("alt.con:21.cset:a.con:21.cset:a"), add("rep.ast:31.seq.cset:a.cset:b")
     add("seq.con:21.cset:a.con:21.cset:a")
+    # 10. how an operand is handed over (is_valid_argument: by value, by fcppt::reference, by unique_ptr), lvalues, and
+    #     the SAME parser object used twice; a convert_const constant that owns memory, used repeatedly
+    for g in ("seq.copy.cset:a.copy.lit:b", "seq.cref.cset:a.cref.plus.cset:b", "seq.box.cset:a.box.lit:b", "alt.box.cset:a.copy.lit:b",
+              "alt.cref.plus.cset:a.box.cset:b", "rep.cref.cset:a", "rep.box.seq.lit:a.cset:b", "plus.box.lit:a", "plus.cref.cset:a",
+              "plus.copy.seq.lit:a.cset:b", "opt.copy.cset:a", "opt.box.seq.cset:a.cset:b", "not.cref.lit:a", "not.box.str:ab",
+              "sep.box.cset:a.cref.lit:b", "sep.cref.cset:a.copy.lit:b", "list.copy.lit:a.cref.cset:b.box.lit:c.copy.lit:a",
+              "con:21.cref.cset:a", "ast:31.box.seq.cset:a.cset:b", "ast:31.cref.seq.cset:a.plus.cset:b", "fatal.cref.cset:a",
+              "lex.box.cset:a", "cst:i7.cref.lit:a", "cst:i7.box.lit:a", "named.box.cset:a", "named.cref.seq.cset:a.cset:b",
+              "ign.cref.cset:a", "ign.box.plus.cset:a",
+              "seq.cref.cset:ab.same", "seq.copy.plus.cset:a.same", "alt.cref.lit:a.same", "alt.cref.cset:ab.same",
+              "sep.cref.lit:a.same", "seq.seq.cref.cset:ab.same.cset:c", "rep.seq.cref.cset:ab.same",
+              "rep.cst:sab.lit:c", "plus.cst:sab.lit:b", "seq.cst:sab.lit:a.cst:sab.lit:b", "sep.cst:sa.lit:a.lit:b",
+              "alt.cst:sab.lit:a.plus.cset:c", "cst:s.lit:a", "spc", "blk", "dig", "rep.dig"):
+        # a boxed parser is committed to its world's skipper: under lexeme (which passes epsilon) only in the epsilon world
+        add(g, "abc", wide=(g != "lex.box.cset:a"))
     # 9. numbers
     for g in ("uint", "int", "seq.uint.lit:a", "seq.opt.lit:a.int", "alt.uint.int", "alt.int.uint", "rep.seq.uint.lit:a",
               "sep.int.lit:a", "seq.uint.uint"):
@@ -388,7 +436,7 @@ def typed_shapes():
     return out
 
 
-TYPED_CHUNKS = 8
+TYPED_CHUNKS = 16
 HDIR = os.path.normpath(os.path.join(os.path.dirname(os.path.abspath(__file__)), "..", "harness"))
 
 
@@ -407,16 +455,17 @@ def gen_typed_files():
             node = parse_prefix(g)
             lines.append(f'  if (_grammar == "{g}")')
             lines.append("  {")
-            lines.append("    if (_world == 0)")
-            lines.append("    {")
-            lines.append("      using Ch = char;")
-            lines.append(f"      run_shape<Ch>(_world, _skip, {shape_cpp(node)}, _op, _result);")
-            lines.append("    }")
-            if wide:
-                lines.append("    else")
+            decls = []
+            expr = shape_cpp(node, decls)
+            for ch, cond in (("char", "_world == 0"), ("wchar_t", "_world == 1")):
+                if ch == "wchar_t" and not wide:
+                    continue
+                lines.append(f"    if ({cond})")
                 lines.append("    {")
-                lines.append("      using Ch = wchar_t;")
-                lines.append(f"      run_shape<Ch>(_world, _skip, {shape_cpp(node)}, _op, _result);")
+                lines.append(f"      using Ch = {ch};")
+                for d in decls:
+                    lines.append("      " + d)
+                lines.append(f"      run_shape<Ch>(_world, _skip, {expr}, _op, _result);")
                 lines.append("    }")
             lines.append("    return true;")
             lines.append("  }")
@@ -507,7 +556,8 @@ def make_ops(rng, count, maxlen_small, maxlen_big, stats, sk_choices, numeric=Fa
         gr = g.grammar()
         # p/h/g: the string entry points (consume_remaining); s/r: the stream entry points (the offset the stream is left
         # at, after success and after failure, is part of the answer)
-        entry = rng.choice(["p", "h", "g", "s", "r"]) if sk == "E" else rng.choice(["h", "g", "s", "r"])
+        # q: fcppt::parse::parse on a basic_stream, t: parse_stream (both epsilon only)
+        entry = rng.choice(["p", "h", "g", "s", "r", "q", "t"]) if sk == "E" else rng.choice(["h", "g", "s", "r"])
         maxlen = maxlen_big if len(alpha) <= 3 else maxlen_small
         while n_inputs(len(alpha), maxlen) > 12000 and maxlen > 3:
             maxlen -= 1
@@ -623,7 +673,7 @@ def sys_ops(terms, maxlen, skips, stride=1, offset=0):
             if (i + offset) % stride:
                 continue
             # the stream entry points show the position after success AND after failure; the string ones consume_remaining
-            e = ("s", "h", "r", "g")[i % 4]
+            e = ("s", "h", "r", "g")[i % 4] if sk != "E" else ("s", "p", "t", "g", "q", "h", "r")[i % 7]
             alpha = "ab" if sk == "E" else "abx"
             ml = maxlen + 1 if sk == "E" else maxlen
             ops.append(f"enum c{e} {sk} {g} ={alpha} {ml}")
@@ -682,8 +732,9 @@ MANIFEST = {
                    "everything was consumed) are theorems. The model is tied to the code by a differential correspondence over "
                    "generated well-formed grammars built from the real templates, each run on all inputs over a small alphabet."),
     "level_note": ("Trusted: Lean kernel + propext/Classical.choice/Quot.sound; model fidelity outside the generated grammars; harness and "
-                   "protocol; std::istringstream as a character array. float_ and the typed result plumbing (tuple/variant flattening) "
-                   "are not modelled; termination is proved for every grammar that is well-formed under some ranking of its rules (wf_total: no left recursion, no repetition of a nullable body; recursive grammars included). "
+                   "protocol; std::istringstream as a character array; the decimal->binary64 conversion of float_ (executable model validated "
+                   "by correspondence, not proved). The typed result plumbing (unit dropping, tuple/variant flattening, string-vs-vector) is "
+                   "modelled and proved type-preserving (typed_value_inhabits) and compared on 314 statically typed grammars; termination is proved for every grammar that is well-formed under some ranking of its rules (wf_total: no left recursion, no repetition of a nullable body; recursive grammars included). "
                    "No sorry/axiom/native_decide."),
     "technique": "Lean 4 proof over hand-written executable model (refinement + big-step semantics) + differential correspondence (ASan/UBSan harness, exhaustive inputs per generated grammar)",
     "design_ref": "DESIGN.md §5 C02, Appendix A.1",
